@@ -3,17 +3,18 @@
    vertices, infinite shoulders) x heights x every breakpoint of the definition with both infinitesimal
    neighbours, midpoints, outside points, +-inf, NaN.  One state per (term, point). *)
 EXTENDS Terms, TLC, Json
-CONSTANTS Palette,   \* "dyadic" | "decimal"
+CONSTANTS Palette,   \* "dyadic" | "decimal" | "narrow" (parameters within the library's comparison tolerance, 0.001, of a degenerate value)
           Kinds,     \* the kinds enumerated by this run
           Emit
 F == IF Palette = "dyadic" THEN { Zero, Q(1,4), Half, Q(3,4), One }
+     ELSE IF Palette = "narrow" THEN { Zero, Q(1,1024), One }
      ELSE { Q(1,10), Q(3,10), Q(45,100), Q(7,10), Q(95,100) }
-Pos3 == IF Palette = "dyadic" THEN { Q(1,4), Half, One } ELSE { Q(1,10), Q(3,10), Q(7,10) }   \* widths / deviations
-Heights == IF Palette = "dyadic" THEN { One, Half, Q(3,4) } ELSE { One, Q(3,10), Q(7,10) }
+Pos3 == IF Palette = "dyadic" THEN { Q(1,4), Half, One } ELSE IF Palette = "narrow" THEN { Q(1,1024), One } ELSE { Q(1,10), Q(3,10), Q(7,10) }   \* widths / deviations
+Heights == IF Palette = "dyadic" THEN { One, Half, Q(3,4) } ELSE IF Palette = "narrow" THEN { One, Q(1023,1024) } ELSE { One, Q(3,10), Q(7,10) }
 FL == F \cup {NInf}
 FR == F \cup {PInf}
 FI == F \cup {NInf, PInf}
-FSeq == CHOOSE s \in [1..5 -> F] : \A i \in 1..4 : Lt(s[i], s[i+1])
+FSeq == CHOOSE s \in [1..5 -> (IF Palette = "narrow" THEN F \cup {Q(1,4), Q(3,4)} ELSE F)] : \A i \in 1..4 : Lt(s[i], s[i+1])
 
 \* a long table with a vertical edge at every integer: pair i of n is (i \div 2, ((3 i) mod 5) / 4)
 Stair(n) == [j \in 1..(2 * n) |-> LET i == (j + 1) \div 2 IN IF j % 2 = 1 THEN I(i \div 2) ELSE Q((3 * i) % 5, 4)]
@@ -78,6 +79,11 @@ Monotone == IsMonotonic(t) =>
 \* the S-, Z- and Pi-shapes are continuous when their edges are not vertical
 Continuous == (t.k \in {"SShape", "ZShape"} /\ Lt(t.p[1], t.p[2]) /\ x[2] = 0 /\ IsFin(x[1]) /\ x[1] \in FinBP(t)) =>
                  (M(t, P(x[1], -1)).v = V /\ M(t, P(x[1], 1)).v = V)
-EmitInv == Emit => PrintT(ToJson([k |-> t.k, p |-> t.p, h |-> t.h, x |-> x, piece |-> M(t, x).piece, v |-> V,
-                                  f |-> Mu(t, x, SymEnv(t)).v]))
+\* (narrow palette: only the piece and the symbolic closed form are emitted - the exact value of a quadratic piece with
+\* denominators of 2^10 does not fit TLC's 32-bit integers; the harness evaluates the closed form in exact rationals)
+EmitInv == Emit => PrintT(ToJson(IF Palette = "narrow"
+                                 THEN [k |-> t.k, p |-> t.p, h |-> t.h, x |-> x, piece |-> Mu(t, x, SymEnv(t)).piece, v |-> <<"not-computed">>,
+                                       f |-> Mu(t, x, SymEnv(t)).v]
+                                 ELSE [k |-> t.k, p |-> t.p, h |-> t.h, x |-> x, piece |-> M(t, x).piece, v |-> V,
+                                       f |-> Mu(t, x, SymEnv(t)).v]))
 =============================================================================
